@@ -254,7 +254,9 @@ func DriverMain(prop, tier, verifDir string) int {
 			p := filepath.Join(verifDir, "replay", fmt.Sprintf("%s-%x.json", prop, h[:6]))
 			os.WriteFile(p, b, 0o644)
 			lines = append(lines, fmt.Sprintf("VIOLATION property=%s replay=%s", prop, p))
-			fmt.Fprintf(os.Stderr, "  [%s] %s: key=%q expected=%v observed=%v %s\n", prop, v.Class, v.Key, trunc(v.Expected), trunc(v.Observed), firstLine(v.Detail))
+			if len(lines) <= 8 {
+				fmt.Fprintf(os.Stderr, "  [%s] %s: key=%.160q expected=%.120s observed=%.120s\n", prop, v.Class, v.Key, trunc(v.Expected), trunc(v.Observed))
+			}
 		}
 	}
 	for i, k := range known {
